@@ -800,8 +800,8 @@ var directed = []struct {
 	{"l1-two-files-growth", 1024, "I 20 300;S;C1;OPEN;U 0 2;S;C1;I 20 300;S;C1;POLL;U 0 3;S;POLL"},
 	{"compaction-retention", 1024, "I 20 300;S;OPEN;I 5 300;S;I 5 300;S;C1;R0;POLL;I 5 300;S;C1;C2;R0;SN;RS;POLL;OPEN"},
 	{"lag-behind-retention", 1024, "I 20 300;S;OPEN;I 5 300;S;I 5 300;S;I 5 300;S;C1;R0;I 5 300;S;POLL;POLL"},
-	{"l1-catches-up-then-l0-retention", 1024, "I 20 300;S;C1;OPEN;U 0 2;S;U 1 2;S;POLL;C1;R0;POLL;U 0 3;S;POLL"},
-	{"l1-catches-up-maxtxid1-seeded-from-pos", 1024, "I 20 300;S;OPEN;U 0 2;S;U 1 2;S;POLL;C1;R0;POLL;U 0 3;S;POLL"},
+	{"l1-catches-up-then-l0-retention", 1024, "I 20 900;S;C1;OPEN;U 0 2;S;U 1 2;S;POLL;C1;R0;POLL;U 0 3;S;POLL"},
+	{"l1-catches-up-maxtxid1-seeded-from-pos", 1024, "I 20 900;S;OPEN;U 0 2;S;U 1 2;S;POLL;C1;R0;POLL;U 0 3;S;POLL"},
 	{"locked-polls", 1024, "I 30 300;S;OPEN;I 30 300;S;LPOLL;D 0 2;S;VAC;S;LPOLL;I 3 30;S;LPOLL"},
 	{"time-travel", 1024, "I 20 300;S;I 20 300;S;OPEN;D 0 2;S;V 2;S;I 4 40;S;POLL;TT 0;TT 1;TT 2;TT 3"},
 }
